@@ -531,9 +531,54 @@ func exec(c vh.Case, o *vh.Out) {
 			}
 			return s
 		}
-		o.Emit("%s rt=ok vwn=%s aseq=%s attl=%s aeol=%s aval=%s meta=%s", created, vwn,
+		// MetadataEntries (iteration order = encoded order, reserved fields skipped) and MetadataExists
+		var ents []string
+		seen := map[string]bool{}
+		for k, mv := range r2.MetadataEntries() {
+			seen[k] = true
+			var v string
+			switch mv.Kind() {
+			case ipns.MetadataKindString:
+				x, _ := mv.AsString()
+				v = "s:" + hx([]byte(x))
+			case ipns.MetadataKindBytes:
+				x, _ := mv.AsBytes()
+				v = "b:" + hx(x)
+			case ipns.MetadataKindInt:
+				x, _ := mv.AsInt()
+				v = "i:" + strconv.FormatInt(x, 10)
+			case ipns.MetadataKindBool:
+				x, _ := mv.AsBool()
+				v = fmt.Sprintf("t:%d", b01(x))
+			default:
+				v = "o:"
+			}
+			if mv.Kind().String() == "invalid" {
+				o.Fail("roundtrip-metadata", "entry %q has an invalid kind", k)
+			}
+			ents = append(ents, hx([]byte(k))+":"+v)
+		}
+		if len(seen) != len(mkeys) {
+			o.Fail("roundtrip-metadata", "MetadataEntries yields %d entries, %d were given", len(seen), len(mkeys))
+		}
+		mex := ""
+		for _, k := range append(append([]string(nil), mkeys...), "Value", "TTL", "_absent") {
+			ex := r2.MetadataExists(k)
+			mex += strconv.Itoa(b01(ex))
+			if _, given := md[k]; given != ex {
+				o.Fail("roundtrip-metadata", "MetadataExists(%q) = %v", k, ex)
+			}
+			if given := seen[k]; given != ex {
+				o.Fail("roundtrip-metadata", "MetadataExists(%q) = %v but MetadataEntries says %v", k, ex, given)
+			}
+		}
+		entS := "-"
+		if len(ents) > 0 {
+			entS = strings.Join(ents, ";")
+		}
+		o.Emit("%s rt=ok vwn=%s aseq=%s attl=%s aeol=%s aval=%s meta=%s ents=%s mex=%s", created, vwn,
 			acc(strconv.FormatUint(aseq, 10), e1), acc(strconv.FormatInt(int64(attl), 10), e2), acc(nsOf(aeol), e3),
-			acc(hx([]byte(fmt.Sprint(aval))), e4), meta)
+			acc(hx([]byte(fmt.Sprint(aval))), e4), meta, entS, mex)
 	}
 }
 
